@@ -910,5 +910,188 @@ theorem transposeP_spec (m : Matrix α) (h : m.Inv) :
     obtain ⟨x, hx⟩ := tryGet_isSome m h.1 (List.mem_range.mp hr) (List.mem_range.mp hc)
     exact ⟨x, getP_of_tryGet m hx⟩
 
+/-! ## 5. transpose_mut: the square swap loop -/
+
+/-- an `n × n` matrix with consistent storage -/
+structure Sq (n : Nat) (m : Matrix α) : Prop where
+  rows : m.rows = n
+  cols : m.columns = n
+  len : m.data.length = n * n
+
+theorem tryGet_set (m : Matrix α) (i j : Nat) (v : α) (hi : i < m.rows) (hj : j < m.columns)
+    (hlen : m.data.length = m.rows * m.columns) :
+    (m.set i j v).panic = none ∧ (m.set i j v).state.rows = m.rows ∧
+    (m.set i j v).state.columns = m.columns ∧
+    (m.set i j v).state.data.length = m.data.length ∧
+    ∀ a b, a < m.rows → b < m.columns →
+      (m.set i j v).state.tryGet a b = if a = i ∧ b = j then some v else m.tryGet a b := by
+  have hidx : m.getIndex i j < m.data.length := by
+    unfold getIndex; rw [hlen]; exact getIndex_lt hi hj
+  unfold set
+  simp only [hi, hj, hidx, if_true, List.length_set, true_and]
+  intro a b ha hb
+  unfold tryGet
+  simp only [ha, hb, and_self, if_true, getIndex, List.getElem?_set]
+  by_cases e : a = i ∧ b = j
+  · obtain ⟨rfl, rfl⟩ := e
+    unfold getIndex at hidx
+    simp [hidx]
+  · have : ¬ (j + i * m.columns = b + a * m.columns) := by
+      intro e'
+      have := getIndex_inj hj hb e'
+      exact e ⟨this.1.symm, this.2.symm⟩
+    simp [this, e]
+
+/-- one iteration of the swap loop (for `i ≤ j`) -/
+theorem swap_step {n : Nat} (m : Matrix α) (hm : Sq n m) (i j : Nat) (hi : i < n) (hj : j < n) :
+    ∃ temp x m1 m2, m.getP i j = .ok temp ∧ m.getP j i = .ok x ∧
+      m.set i j x = ⟨m1, none⟩ ∧ m1.set j i temp = ⟨m2, none⟩ ∧ Sq n m2 ∧
+      ∀ a b, a < n → b < n →
+        m2.tryGet a b =
+          if a = j ∧ b = i then m.tryGet i j
+          else if a = i ∧ b = j then m.tryGet j i else m.tryGet a b := by
+  have hlen : m.data.length = m.rows * m.columns := by rw [hm.len, hm.rows, hm.cols]
+  obtain ⟨temp, ht⟩ := tryGet_isSome m hlen (r := i) (c := j) (by rw [hm.rows]; exact hi)
+    (by rw [hm.cols]; exact hj)
+  obtain ⟨x, hx⟩ := tryGet_isSome m hlen (r := j) (c := i) (by rw [hm.rows]; exact hj)
+    (by rw [hm.cols]; exact hi)
+  obtain ⟨p1, r1, c1, l1, g1⟩ := tryGet_set m i j x (by rw [hm.rows]; exact hi)
+    (by rw [hm.cols]; exact hj) hlen
+  generalize hs1 : m.set i j x = res1 at p1 r1 c1 l1 g1
+  obtain ⟨m1, pk1⟩ := res1
+  simp only at p1 r1 c1 l1 g1
+  subst p1
+  have hlen1 : m1.data.length = m1.rows * m1.columns := by rw [l1, r1, c1, hlen]
+  obtain ⟨p2, r2, c2, l2, g2⟩ := tryGet_set m1 j i temp (by rw [r1, hm.rows]; exact hj)
+    (by rw [c1, hm.cols]; exact hi) hlen1
+  generalize hs2 : m1.set j i temp = res2 at p2 r2 c2 l2 g2
+  obtain ⟨m2, pk2⟩ := res2
+  simp only at p2 r2 c2 l2 g2
+  subst p2
+  refine ⟨temp, x, m1, m2, getP_of_tryGet m ht, getP_of_tryGet m hx, hs1, hs2,
+    ⟨by rw [r2, r1, hm.rows], by rw [c2, c1, hm.cols], by rw [l2, l1, hm.len]⟩, ?_⟩
+  intro a b ha hb
+  rw [g2 a b (by rw [r1, hm.rows]; exact ha) (by rw [c1, hm.cols]; exact hb),
+    g1 a b (by rw [hm.rows]; exact ha) (by rw [hm.cols]; exact hb), ht, hx]
+
+/-- the swap loop over a duplicate-free list of in-range pairs: no panic, and cell `(a, b)` has
+    been exchanged with `(b, a)` exactly when the pair `{a, b}` was visited in its `i ≤ j` form -/
+theorem transposeMutLoop_spec {n : Nat} :
+    ∀ (L : List (Nat × Nat)) (m : Matrix α), Sq n m → L.Nodup → (∀ p ∈ L, p.1 < n ∧ p.2 < n) →
+      (transposeMutLoop L m).panic = none ∧ Sq n (transposeMutLoop L m).state ∧
+      ∀ a b, a < n → b < n →
+        (transposeMutLoop L m).state.tryGet a b =
+          if ((a, b) ∈ L ∧ a ≤ b) ∨ ((b, a) ∈ L ∧ b ≤ a) then m.tryGet b a else m.tryGet a b := by
+  intro L
+  induction L with
+  | nil =>
+    intro m hm _ _
+    simp [transposeMutLoop, hm]
+  | cons p L ih =>
+    intro m hm hnd hrange
+    obtain ⟨i, j⟩ := p
+    have hnd' := (List.nodup_cons.mp hnd)
+    have hr' : ∀ p ∈ L, p.1 < n ∧ p.2 < n := fun p hp => hrange p (List.mem_cons_of_mem _ hp)
+    have hij := hrange (i, j) List.mem_cons_self
+    by_cases hlt : j < i
+    · -- skipped pair
+      have e : transposeMutLoop ((i, j) :: L) m = transposeMutLoop L m := by
+        simp [transposeMutLoop, hlt]
+      rw [e]
+      obtain ⟨h1, h2, h3⟩ := ih m hm hnd'.2 hr'
+      refine ⟨h1, h2, ?_⟩
+      intro a b ha hb
+      rw [h3 a b ha hb]
+      have c1 : ((a, b) ∈ (i, j) :: L ∧ a ≤ b) ↔ ((a, b) ∈ L ∧ a ≤ b) := by
+        simp only [List.mem_cons, Prod.mk.injEq]
+        constructor
+        · rintro ⟨h | h, h'⟩
+          · omega
+          · exact ⟨h, h'⟩
+        · rintro ⟨h, h'⟩; exact ⟨Or.inr h, h'⟩
+      have c2 : ((b, a) ∈ (i, j) :: L ∧ b ≤ a) ↔ ((b, a) ∈ L ∧ b ≤ a) := by
+        simp only [List.mem_cons, Prod.mk.injEq]
+        constructor
+        · rintro ⟨h | h, h'⟩
+          · omega
+          · exact ⟨h, h'⟩
+        · rintro ⟨h, h'⟩; exact ⟨Or.inr h, h'⟩
+      simp only [c1, c2]
+    · -- swapped pair
+      obtain ⟨temp, x, m1, m2, e1, e2, e3, e4, hsq, hcell⟩ := swap_step m hm i j hij.1 hij.2
+      have e : transposeMutLoop ((i, j) :: L) m = transposeMutLoop L m2 := by
+        simp [transposeMutLoop, hlt, e1, e2, e3, e4]
+      rw [e]
+      obtain ⟨h1, h2, h3⟩ := ih m2 hsq hnd'.2 hr'
+      refine ⟨h1, h2, ?_⟩
+      intro a b ha hb
+      rw [h3 a b ha hb]
+      have hnot : (i, j) ∉ L := hnd'.1
+      by_cases hc : ((a, b) ∈ L ∧ a ≤ b) ∨ ((b, a) ∈ L ∧ b ≤ a)
+      · -- visited later: not touched by this step
+        have hne1 : ¬ (b = j ∧ a = i) := by
+          rintro ⟨rfl, rfl⟩
+          rcases hc with ⟨h, _⟩ | ⟨h, h'⟩
+          · exact hnot h
+          · have : a = b := by omega
+            subst this; exact hnot h
+        have hne2 : ¬ (b = i ∧ a = j) := by
+          rintro ⟨rfl, rfl⟩
+          rcases hc with ⟨h, h'⟩ | ⟨h, _⟩
+          · have : a = b := by omega
+            subst this; exact hnot h
+          · exact hnot h
+        have hc' : ((a, b) ∈ (i, j) :: L ∧ a ≤ b) ∨ ((b, a) ∈ (i, j) :: L ∧ b ≤ a) := by
+          rcases hc with ⟨h, h'⟩ | ⟨h, h'⟩
+          · exact Or.inl ⟨List.mem_cons_of_mem _ h, h'⟩
+          · exact Or.inr ⟨List.mem_cons_of_mem _ h, h'⟩
+        rw [if_pos hc, if_pos hc', hcell b a hb ha, if_neg hne1, if_neg hne2]
+      · rw [if_neg hc, hcell a b ha hb]
+        by_cases q1 : a = j ∧ b = i
+        · obtain ⟨rfl, rfl⟩ := q1
+          have hc' : ((a, b) ∈ (b, a) :: L ∧ a ≤ b) ∨ ((b, a) ∈ (b, a) :: L ∧ b ≤ a) :=
+            Or.inr ⟨List.mem_cons_self, by omega⟩
+          rw [if_pos ⟨rfl, rfl⟩, if_pos hc']
+        · rw [if_neg q1]
+          by_cases q2 : a = i ∧ b = j
+          · obtain ⟨rfl, rfl⟩ := q2
+            have hc' : ((a, b) ∈ (a, b) :: L ∧ a ≤ b) ∨ ((b, a) ∈ (a, b) :: L ∧ b ≤ a) :=
+              Or.inl ⟨List.mem_cons_self, by omega⟩
+            rw [if_pos ⟨rfl, rfl⟩, if_pos hc']
+          · rw [if_neg q2]
+            have hc' : ¬ (((a, b) ∈ (i, j) :: L ∧ a ≤ b) ∨ ((b, a) ∈ (i, j) :: L ∧ b ≤ a)) := by
+              simp only [List.mem_cons, Prod.mk.injEq]
+              rintro (⟨h | h, h'⟩ | ⟨h | h, h'⟩)
+              · exact q2 h
+              · exact hc (Or.inl ⟨h, h'⟩)
+              · exact q1 ⟨h.2, h.1⟩
+              · exact hc (Or.inr ⟨h, h'⟩)
+            rw [if_neg hc']
+
+theorem mem_indexPairs {rows columns : Nat} {p : Nat × Nat} :
+    p ∈ indexPairs rows columns ↔ p.1 < rows ∧ p.2 < columns := by
+  obtain ⟨a, b⟩ := p
+  simp only [indexPairs, List.mem_flatMap, List.mem_range, List.mem_map, Prod.mk.injEq]
+  constructor
+  · rintro ⟨r, hr, c, hc, rfl, rfl⟩; exact ⟨hr, hc⟩
+  · rintro ⟨h1, h2⟩; exact ⟨a, h1, b, h2, rfl, rfl⟩
+
+theorem nodup_indexPairs (rows columns : Nat) : (indexPairs rows columns).Nodup := by
+  unfold indexPairs
+  rw [List.nodup_iff_pairwise_ne, List.pairwise_flatMap]
+  constructor
+  · intro r _
+    rw [List.pairwise_map]
+    exact List.Pairwise.imp (fun h e => h (by simpa using e)) (List.nodup_range (n := columns))
+  · have := List.nodup_range (n := rows)
+    rw [List.nodup_iff_pairwise_ne] at this
+    refine List.Pairwise.imp ?_ this
+    intro r r' hne x hx y hy e
+    simp only [List.mem_map] at hx hy
+    obtain ⟨c, _, rfl⟩ := hx
+    obtain ⟨c', _, rfl⟩ := hy
+    simp only [Prod.mk.injEq] at e
+    exact hne e.1
+
 end Matrix
 end EasyMl
